@@ -254,7 +254,7 @@ class CouplingLevyCopulaSimulationFixedTimes(CouplingLevyCopulaSimulation):
         for k, (slice_fine_states, slice_fine_values) in enumerate(
             zip(fine_states_increments, fines_states_allvalues)
         ):
-            if slice_fine_states:
+            if len(slice_fine_states):
                 slice_coarse_values = self._coupling_states_for_a_slice(
                     slice_fine_states
                 )
@@ -321,7 +321,7 @@ class CouplingLevyCopulaSimulationWithJumpTimes(CouplingLevyCopulaSimulation):
         for k, (slice_fine_states, slice_fine_values) in enumerate(
             zip(fine_states_increments, fines_states_allvalues)
         ):
-            if slice_fine_states:
+            if len(slice_fine_states):
                 slice_coarse_values = self._coupling_states_for_a_slice(
                     slice_fine_states
                 )
